@@ -409,3 +409,38 @@ def skip_width(db, ctx):
     from . import C11
     C11.skip_width(db, ctx)
     ctx.floor(4)
+
+
+@rule("C05.field-source", "each stored word-info field is written from the entry attribute the reader's field stands for: surface <- headword(), "
+                          "head_word_length <- byte length of the INDEX KEY (self.surface.len()), pos, normalized / reading forms elided against "
+                          "headword(), dictionary-form id, then splits A, B, word structure, synonym groups")
+def field_source(db, ctx):
+    from ..inline import nf
+    f = db.view(db.one("write_word_info", "RawLexiconEntry"))
+    got = []
+    for n, ps in walk(f.hir):
+        if n.get("k") == "MethodCall":
+            m = n["method"]
+            c = callee(n) or ""
+            if m in ("write", "write_len") and "Utf16Writer" in c and len(n["args"]) > 1:
+                got.append((m, nf(n["args"][1])))
+            elif m == "write_empty_if_equal" and "Utf16Writer" in c and len(n["args"]) > 2:
+                got.append((m, nf(n["args"][1]), nf(n["args"][2])))
+            elif m == "write_all" and n["args"]:
+                a = peel(n["args"][0])
+                if a.get("k") == "MethodCall" and a.get("method") == "to_le_bytes":
+                    got.append(("int", nf(a["recv"])))
+        elif n.get("k") == "Call" and path_ends(n.get("callee"), "write_u32_array") and len(n["args"]) > 1:
+            got.append(("array", nf(n["args"][1])))
+    want = [("write", "self.headword()"), ("write_len", "self.surface.len()"), ("int", "self.pos"),
+            ("write_empty_if_equal", "self.norm_form()", "self.headword()"), ("int", "self.dic_form.as_raw()"),
+            ("write_empty_if_equal", "self.reading()", "self.headword()"),
+            ("array", "self.splits_a"), ("array", "self.splits_b"), ("array", "self.word_structure"), ("array", "self.synonym_groups")]
+    for i, w in enumerate(want):
+        g = got[i] if i < len(got) else None
+        ctx.ob("write_word_info|#%d:%s" % (i, w[1]), g == w,
+               "stored field #%d is written by %s (must be %s)%s" % (i, g, w, "" if g == w else
+                                                                    " — the reader interprets this slot as the other attribute: e.g. a head-word length taken from the "
+                                                                    "headword instead of the index key misplaces every A/B split boundary when the two differ in byte length"), fn=f)
+    ctx.ob("write_word_info|count", len(got) == len(want), "write_word_info writes %d fields (reader has %d)" % (len(got), len(want)), fn=f)
+    ctx.floor(10)
